@@ -17,6 +17,8 @@ vars == <<i, owner, open, wraps, fbrOf, dead>>
 Init == i = 1 /\ owner = [x \in {} |-> 0] /\ open = {} /\ wraps = {} /\ fbrOf = [x \in {} |-> 0] /\ dead = {}
         /\ TLCSet(1, 1) /\ TLCSet(2, 0)
 e == Log[i]
+(* object identity = <<kind, address>>: an address can be reused by an object of another kind after a GC *)
+O == <<e.s, e.a>>
 Known(o) == o \in DOMAIN owner
 Put2(f, k, v) == [x \in DOMAIN f \cup {k} |-> IF x = k THEN v ELSE f[x]]
 (* o itself is in use, or an object that reads through o is *)
@@ -27,22 +29,22 @@ Step ==
   /\ CASE e.ev = "PoolReset" ->
             owner' = [x \in {} |-> 0] /\ open' = {} /\ wraps' = {} /\ fbrOf' = [x \in {} |-> 0] /\ dead' = {}
        [] e.ev = "PoolGet" ->
-            /\ (Known(e.a) /\ owner[e.a] # 0 /\ owner[e.a] # e.c /\ owner[e.a] \notin dead) => Fail("pooled-object-handed-out-while-owned-by-another-connection")
-            /\ owner' = Put2(owner, e.a, e.c)
-            /\ fbrOf' = IF e.s = "fbr" THEN Put2(fbrOf, e.c, e.a) ELSE fbrOf
-            /\ wraps' = IF e.s = "fr" /\ e.c \in DOMAIN fbrOf THEN {w \in wraps : w[1] # e.a} \cup {<<e.a, fbrOf[e.c]>>} ELSE wraps
+            /\ (Known(O) /\ owner[O] # 0 /\ owner[O] # e.c /\ owner[O] \notin dead) => Fail("pooled-object-handed-out-while-owned-by-another-connection")
+            /\ owner' = Put2(owner, O, e.c)
+            /\ fbrOf' = IF e.s = "fbr" THEN Put2(fbrOf, e.c, O) ELSE fbrOf
+            /\ wraps' = IF e.s = "fr" /\ e.c \in DOMAIN fbrOf THEN {w \in wraps : w[1] # O} \cup {<<O, fbrOf[e.c]>>} ELSE wraps
             /\ UNCHANGED <<open, dead>>
        [] e.ev = "PoolPut" ->
-            /\ (Known(e.a) /\ owner[e.a] # e.c) => Fail("pooled-object-put-by-a-connection-that-does-not-own-it")
-            /\ (Known(e.a) /\ owner[e.a] = e.c /\ InUse(e.a)) => Fail("pooled-object-put-while-a-call-into-it-is-in-progress")
-            /\ owner' = Put2(owner, e.a, 0)
+            /\ (e.s # "sw" /\ Known(O) /\ owner[O] # e.c /\ owner[O] \notin dead) => Fail("pooled-object-put-by-a-connection-that-does-not-own-it")
+            /\ (Known(O) /\ owner[O] = e.c /\ InUse(O)) => Fail("pooled-object-put-while-a-call-into-it-is-in-progress")
+            /\ owner' = Put2(owner, O, 0)
             /\ UNCHANGED <<open, wraps, fbrOf, dead>>
        [] e.ev = "UseBegin" ->
-            /\ (e.a # 0 /\ Known(e.a) /\ owner[e.a] # e.c) => Fail("use-of-pooled-object-not-owned-by-this-connection")
-            /\ open' = IF e.a = 0 THEN open ELSE open \cup {<<e.c, e.a>>}
+            /\ (e.a # 0 /\ Known(O) /\ owner[O] # e.c) => Fail("use-of-pooled-object-not-owned-by-this-connection")
+            /\ open' = IF e.a = 0 THEN open ELSE open \cup {<<e.c, O>>}
             /\ UNCHANGED <<owner, wraps, fbrOf, dead>>
        [] e.ev = "UseEnd" ->
-            open' = open \ {<<e.c, e.a>>} /\ UNCHANGED <<owner, wraps, fbrOf, dead>>
+            open' = open \ {<<e.c, O>>} /\ UNCHANGED <<owner, wraps, fbrOf, dead>>
        [] e.ev = "CloseExit" ->
             dead' = dead \cup {e.c} /\ UNCHANGED <<owner, open, wraps, fbrOf>>
        [] OTHER -> UNCHANGED <<owner, open, wraps, fbrOf, dead>>
